@@ -170,6 +170,12 @@ impl MqttShared {
     }
 
     pub(super) fn close(&self, pkt: Option<codec::Disconnect>) {
+        self.close_io(pkt);
+        self.closed.set(true);
+    }
+
+    /// Close io stream and fail pending requests, sink itself is not marked as closed
+    fn close_io(&self, pkt: Option<codec::Disconnect>) {
         if !self.is_closed() {
             if let Some(pkt) = pkt
                 && !self.is_disconnect_sent()
@@ -178,7 +184,6 @@ impl MqttShared {
             }
             self.io.close();
         }
-        self.closed.set(true);
         self.clear_queues();
     }
 
@@ -410,8 +415,13 @@ impl MqttShared {
     }
 
     pub(super) fn pkt_ack(&self, ack: Ack) -> Result<(), error::ProtocolError> {
+        // sink is closed and queues are cleared, acknowledgements that are still
+        // on the way are not protocol errors
+        if self.closed.get() {
+            return Ok(());
+        }
         self.pkt_ack_inner(ack).inspect_err(|_| {
-            self.close(Some(codec::Disconnect {
+            self.close_io(Some(codec::Disconnect {
                 reason_code: codec::DisconnectReasonCode::ImplementationSpecificError,
                 ..Default::default()
             }));
